@@ -96,18 +96,26 @@ type progOpts struct {
 	jsSafe     bool // stay inside the subset both backends define (C04)
 	taint      bool
 	directives bool
+<<<<<<< HEAD
 	// hooks of the ill-typed/erroring stream (C06); nil = the valid stream, and
 	// no PRNG draw is added, so the other properties' streams are unchanged
 	exprHook func(g *progGen, env genv, k kind, d int) (string, bool) // may replace any expression
 	dirHook  func(g *progGen) (string, bool)                          // may replace a print's directive suffix
+=======
+	spread     bool // C19: put (most) commands on lines of their own, so that line numbers discriminate
+	allHeader  bool // C19: every template declares its params in the header (no soydoc comment in the file)
+>>>>>>> main
 	scope      bool // C02: small name pool (shadowing), scope probes, aliases, attribute-style params, more data="all"/data="$e"
 	// options added for C09 (all off by default; none consumes randomness when off)
 	ij          bool                  // some prints read the injected data: {$ij.s}, {$ij.n}
 	customFunc  string                // name of a user-installed int -> int function to call now and then
 	onTemplates func(ts []*gtemplate) // receives the generated templates (params of every template, not only the entry)
 	// C07
-	allParams  bool // data sets supply optional params too
-	totalCalls bool // every call passes every callee param (optional ones too); no data="$expr"
+	allParams    bool     // data sets supply optional params too
+	totalCalls   bool     // every call passes every callee param (optional ones too); no data="$expr"
+	maxTemplates int      // > 0: bundles of 1..maxTemplates templates instead of 1..4
+	shapes       bool     // print-directive chains of every length 0..8 (marker / cancelling / non-cancelling mixes), list literals of 0..8 items
+	chainExtra   []string // user-installed non-cancelling directives usable in chains, e.g. "|bang"
 }
 
 type progGen struct {
@@ -121,7 +129,19 @@ type progGen struct {
 	alias map[string]map[string]bool // namespace of the caller's file -> namespaces it aliases (scope option)
 }
 
-func (g *progGen) feat(s string)      { g.feats[s]++ }
+func (g *progGen) feat(s string) { g.feats[s]++ }
+
+// nl is a line break between commands when the spread option is on (a text run of white space
+// containing a newline is dropped by the scanner, so the program is the same program).
+func (g *progGen) nl() string {
+	if !g.o.spread {
+		return ""
+	}
+	if g.r.Chance(85) {
+		return "\n"
+	}
+	return ""
+}
 func (g *progGen) pk(ks ...kind) kind { return ks[g.r.Intn(len(ks))] }
 
 func (g *progGen) fresh(prefix string) string {
@@ -197,6 +217,13 @@ func (g *progGen) expr(env genv, k kind, d int) string {
 		case kFloat:
 			return g.floatLit()
 		case kListInt:
+			if g.o.shapes {
+				items := []string{g.intLit()}
+				for n := g.r.Intn(8); n > 0; n-- {
+					items = append(items, g.intLit())
+				}
+				return "[" + strings.Join(items, ", ") + "]"
+			}
 			return "[" + g.intLit() + ", " + g.intLit() + ", " + g.intLit() + "]"
 		case kListStr:
 			return "[" + g.strLit() + ", " + g.strLit() + "]"
@@ -441,7 +468,36 @@ func (r0 *progGen) printable() []kind { return []kind{kInt, kStr, kBool, kFloat,
 
 var rawTexts = []string{"text ", "a b", "<p>", "</p>", " - ", "x", "  two  spaces ", "&amp;", "\n", "line1\n  line2", "é", "\"q\"", "'", "1 < 2"}
 
+// chain: a print-directive list of 0..8 entries.  The parser builds the list
+// with append, so its spare capacity depends on the length; whether a backend
+// appends to it depends on whether a directive cancels autoescaping and on the
+// marker directives (id, noAutoescape) being filtered out.
+func (g *progGen) chain() string {
+	n := g.r.Intn(9)
+	kind := g.r.Intn(4)
+	nonc := append([]string{"|truncate:9", "|truncate:20,false", "|truncate:6,true", "|truncate:40"}, g.o.chainExtra...)
+	markers := []string{"|id", "|noAutoescape"}
+	canc := []string{"|escapeHtml", "|escapeUri", "|escapeJsString", "|json", "|changeNewlineToBr", "|insertWordBreaks:4"}
+	var sb strings.Builder
+	for i := 0; i < n; i++ {
+		switch {
+		case kind == 1 && g.r.Chance(30):
+			sb.WriteString(g.r.Pick(markers))
+		case kind == 2 && g.r.Chance(35), kind == 3:
+			sb.WriteString(g.r.Pick(canc))
+		default:
+			sb.WriteString(g.r.Pick(nonc))
+		}
+	}
+	g.feat(fmt.Sprintf("chain-len:%d", n))
+	g.feat([]string{"chain:non-cancelling", "chain:with-markers", "chain:mixed", "chain:cancelling"}[kind])
+	return sb.String()
+}
+
 func (g *progGen) directive() string {
+	if g.o.shapes {
+		return g.chain()
+	}
 	if !g.o.directives || !g.r.Chance(25) {
 		return ""
 	}
@@ -485,28 +541,28 @@ func (g *progGen) block(env genv, d int, n int) string {
 			}
 		case c < 11 && d > 0:
 			g.feat("if")
-			sb.WriteString("{if " + g.expr(env, kBool, d-1) + "}" + g.block(env, d-1, 1+g.r.Intn(2)))
+			sb.WriteString("{if " + g.expr(env, kBool, d-1) + "}" + g.nl() + g.block(env, d-1, 1+g.r.Intn(2)))
 			for g.r.Chance(30) {
 				g.feat("elseif")
-				sb.WriteString("{elseif " + g.expr(env, kBool, d-1) + "}" + g.block(env, d-1, 1))
+				sb.WriteString("{elseif " + g.expr(env, kBool, d-1) + "}" + g.nl() + g.block(env, d-1, 1))
 			}
 			if g.r.Bool() {
-				sb.WriteString("{else}" + g.block(env, d-1, 1))
+				sb.WriteString("{else}" + g.nl() + g.block(env, d-1, 1))
 			}
 			sb.WriteString("{/if}")
 		case c < 12 && d > 0:
 			g.feat("switch")
 			k := g.pk(kInt, kStr)
-			sb.WriteString("{switch " + g.expr(env, k, d-1) + "}")
+			sb.WriteString("{switch " + g.expr(env, k, d-1) + "}" + g.nl())
 			for j := 0; j < 1+g.r.Intn(3); j++ {
 				sb.WriteString("{case " + g.expr(env, k, 0))
 				if g.r.Chance(30) {
 					sb.WriteString(", " + g.expr(env, k, 0))
 				}
-				sb.WriteString("}" + g.block(env, d-1, 1))
+				sb.WriteString("}" + g.nl() + g.block(env, d-1, 1))
 			}
 			if g.r.Bool() {
-				sb.WriteString("{default}" + g.block(env, d-1, 1))
+				sb.WriteString("{default}" + g.nl() + g.block(env, d-1, 1))
 			}
 			sb.WriteString("{/switch}")
 		case c < 14 && d > 0:
@@ -524,18 +580,18 @@ func (g *progGen) block(env genv, d int, n int) string {
 				v.name = g.r.Pick(scopeNames)
 				g.noteShadow(env, v.name, "loop")
 			}
-			sb.WriteString("{foreach $" + v.name + " in " + g.expr(env, k, d-1) + "}")
+			sb.WriteString("{foreach $" + v.name + " in " + g.expr(env, k, d-1) + "}" + g.nl())
 			sb.WriteString(g.block(env.withLoop(v), d-1, 1+g.r.Intn(2)))
 			if k == kEList || g.r.Chance(20) {
 				g.feat("ifempty")
-				sb.WriteString("{ifempty}" + g.block(env, d-1, 1))
+				sb.WriteString("{ifempty}" + g.nl() + g.block(env, d-1, 1))
 			}
 			sb.WriteString("{/foreach}")
 		case c < 15 && d > 0:
 			g.feat("for-range")
 			v := gvar{name: "r" + g.fresh(""), k: kInt}
 			args := g.r.Pick([]string{"3", "1, 4", "0, 6, 2", "0"})
-			sb.WriteString("{for $" + v.name + " in range(" + args + ")}" + g.block(env.withLoop(v), d-1, 1) + "{/for}")
+			sb.WriteString("{for $" + v.name + " in range(" + args + ")}" + g.nl() + g.block(env.withLoop(v), d-1, 1) + "{/for}")
 		case c < 17:
 			g.feat("let")
 			k := g.printable()[g.r.Intn(6)]
@@ -568,7 +624,7 @@ func (g *progGen) block(env genv, d int, n int) string {
 			g.feat("let-content")
 			used := false
 			v := gvar{name: "c" + g.fresh(""), k: kStr, used: &used}
-			sb.WriteString("{let $" + v.name + "}" + g.block(env, d-1, 1+g.r.Intn(2)) + "{/let}")
+			sb.WriteString("{let $" + v.name + "}" + g.nl() + g.block(env, d-1, 1+g.r.Intn(2)) + "{/let}")
 			env = env.with(v)
 			pendingLets = append(pendingLets, v)
 		case c < 20 && d > 0:
@@ -587,10 +643,11 @@ func (g *progGen) block(env genv, d int, n int) string {
 			sb.WriteString(g.msg(env, d))
 		case c < 24 && !g.o.noLog && d > 0:
 			g.feat("log")
-			sb.WriteString("{log}" + g.block(env, d-1, 1) + "{/log}")
+			sb.WriteString("{log}" + g.nl() + g.block(env, d-1, 1) + "{/log}")
 		default:
 			sb.WriteString(g.r.Pick(rawTexts))
 		}
+		sb.WriteString(g.nl())
 	}
 	for _, v := range pendingLets {
 		if !*v.used {
@@ -796,24 +853,24 @@ func (g *progGen) call(env genv, d int) string {
 			g.feat("param-content")
 			if g.o.scope && g.r.Chance(25) {
 				g.feat("param-attr-syntax")
-				params = append(params, "{param key=\""+p.name+"\"}"+g.block(env, d-1, 1)+"{/param}")
+				params = append(params, "{param key=\""+p.name+"\"}"+g.nl()+g.block(env, d-1, 1)+"{/param}"+g.nl())
 			} else {
-				params = append(params, "{param "+p.name+"}"+g.block(env, d-1, 1)+"{/param}")
+				params = append(params, "{param "+p.name+"}"+g.nl()+g.block(env, d-1, 1)+"{/param}"+g.nl())
 			}
 		} else {
 			ex := g.expr(env, k, d-1)
 			if g.o.scope && g.r.Chance(25) && !strings.ContainsAny(ex, "\"\\\n") {
 				g.feat("param-attr-syntax")
-				params = append(params, "{param key=\""+p.name+"\" value=\""+ex+"\" /}")
+				params = append(params, "{param key=\""+p.name+"\" value=\""+ex+"\" /}"+g.nl())
 			} else {
-				params = append(params, "{param "+p.name+": "+ex+" /}")
+				params = append(params, "{param "+p.name+": "+ex+" /}"+g.nl())
 			}
 		}
 	}
 	if len(params) == 0 {
 		sb.WriteString(" /}")
 	} else {
-		sb.WriteString("}" + strings.Join(params, "") + "{/call}")
+		sb.WriteString("}" + g.nl() + strings.Join(params, "") + "{/call}")
 	}
 	return sb.String()
 }
@@ -839,6 +896,9 @@ func (r *progGen) unusedFix(t *gtemplate, used map[string]*bool) string {
 func genBundle(r *hx.Rand, o progOpts) (files []srcFile, entry string, dataSets []data.Map, feats map[string]int) {
 	g := &progGen{r: r, o: o, feats: map[string]int{}}
 	nT := 1 + r.Intn(4)
+	if o.maxTemplates > 0 {
+		nT = 1 + r.Intn(o.maxTemplates)
+	}
 	nss := []string{"ns.one", "ns.two.deep", "other"}[:1+r.Intn(3)]
 	paramPool := []gparam{{"a", kInt, false}, {"b", kStr, false}, {"c", kListInt, false}, {"x", kInt, false}, {"s", kStr, false}, {"flag", kBool, false},
 		{"f", kFloat, false}, {"rec", kRec, false}, {"opt", kOptInt, true}, {"names", kListStr, false}, {"el", kEList, false}, {"i", kInt, false}}
@@ -851,6 +911,9 @@ func genBundle(r *hx.Rand, o progOpts) (files []srcFile, entry string, dataSets 
 	recPool := []gparam{{"a", kInt, false}, {"b", kStr, false}, {"c", kListInt, false}, {"opt", kOptInt, true}, {"v", kOptInt, true}}
 	for i := 0; i < nT; i++ {
 		t := &gtemplate{short: fmt.Sprintf("t%d", i), header: r.Chance(30)}
+		if o.allHeader {
+			t.header = true
+		}
 		t.ns = nss[r.Intn(len(nss))]
 		if i == 0 {
 			t.ns = nss[0]
